@@ -4,7 +4,7 @@ ID = "C18"
 PROP = {
         "props_module": "FV.Props.C18",
         "builders": {"cc": V.build_cc},
-        "suites": [("cc", "c18", {"quick": 4000, "thorough": 120000})],
+        "suites": [("cc", "c18", {"quick": 12000, "thorough": 150000})],
         "suite_kind": {"c18": "cc"},
         "rule": "A random well-formed single-file IDL program (enums; structs, unions, exceptions with fields of random types incl. containers nested up to depth 5 and typedef chains; services with extends/oneway/throws; scopes with prefixes; namespaces, constants) and a copy with k in 0..3 random edits from the documented catalogue (about 25 breaking and 35 compatible kinds, at random applicable sites, one edit per declaration, also inside nested containers and behind typedefs). Both are rendered to IDL text and audited by the real parser.Auditor with a recording logger; the ASTs the real parser produced are sent to the Lean model. Compared: pass/fail, the sorted multiset of finding kinds (errors and warnings), and the independent catalogue predicate `Breaking`. Oracle: the harness knows its edits: no breaking edit => must pass, >= 1 breaking edit => must fail.",
         "trusted": ["Modelled, not verified: Go map semantics (last assignment wins; each key visited once), reflect.DeepEqual on literal values as equality of canonical tokens",
